@@ -34,6 +34,6 @@ MUTANTS = [
     dict(name="exit-completes-only-stacked-schemas", file=UCD, expect="R8.5",
          old="    if schema_name and schema_name in context.schema_stack:\n        context.schema_stack.remove(schema_name)\n", new="    if not schema_name or schema_name not in context.schema_stack:\n        return\n    context.schema_stack.remove(schema_name)\n"),
 ]
-MUTANTS.append(dict(name="depth-placeholder-dropped-before-reparse", file='core/loader/schemas/extractor.py', expect="R8.8", old='        if n not in context.parsed_schemas:\n            _parse_schema(n, nd, context, allow_self_reference=True)\n', new="        if n in context.parsed_schemas and getattr(context.parsed_schemas[n], '_max_depth_exceeded_marker', False):\n            context.parsed_schemas.pop(n)\n        if n not in context.parsed_schemas:\n            _parse_schema(n, nd, context, allow_self_reference=True)\n"))
+MUTANTS.append(dict(name="depth-placeholder-dropped-before-reparse", file='core/loader/schemas/extractor.py', expect="R8.8", old='        if n not in context.parsed_schemas and n not in context.registered_keys_by_raw_name:\n            _parse_schema(n, nd, context, allow_self_reference=True)\n', new="        if n in context.parsed_schemas and getattr(context.parsed_schemas[n], '_max_depth_exceeded_marker', False):\n            context.parsed_schemas.pop(n)\n        if n not in context.parsed_schemas and n not in context.registered_keys_by_raw_name:\n            _parse_schema(n, nd, context, allow_self_reference=True)\n"))
 MUTANTS.append(dict(name='exit-gives-back-two-units', file='core/parsing/unified_cycle_detection.py', expect='R8.9', old='        context.recursion_depth -= 1\n', new='        context.recursion_depth -= 2\n'))
 MUTANTS.append(dict(name='default-depth-limit-400', file='core/parsing/context.py', expect='R8.10', old='os.environ.get("PYOPENAPI_MAX_DEPTH", 150)', new='os.environ.get("PYOPENAPI_MAX_DEPTH", 400)'))
